@@ -12,6 +12,9 @@ CONSTANTS
   MaxCalls = 2
   NDuties = 2
   SlotGaps = {1}
+  MaxOpen = 1
+  MaxInFlight = 1
+  InitCfgs <- AllCfgs
   LaterAllChoices = {{}, {1}}
   LaterVersions = {"altair", "deneb"}
   LaterOutcomes = {"full", "err", "never"}
